@@ -12,7 +12,11 @@ induction steps:
     embed_expression(t)    base body, per node class C:   t == 'C'  or  some child embeds t
     count_panel_trajectory_expressions
         base body = sum over the children;  PanelLikelihoodTrajectory = 1 + count(child);  catalogs = selected member
-    set_id_manager         Variable: BiogemeError iff an id manager is given whose variable table does not hold the name
+
+Not here: set_id_manager (contracts/c12_ownrules.py); dict_of_elementary_expression (its base body is
+`dict(chain(*(... .items() for e in self.children)))`: a starred generator of unknown arity is outside the engine's
+subset; it stays with the bounded harness, as does IdManager.prepare which consumes it); change_init_values (no refusal
+in it: not part of this property, see C03).
 """
 from pyvc.contract import contract, field_type
 from pyvc.repo import get_repo
